@@ -40,6 +40,13 @@ type btr struct {
 	oldCell     string              // resize(): local copy of an old cell (`cell := primary[r][c]`)
 	sgrIdx      string              // sgr(): index variable of `for i := 0; i < len(params); i += 1`
 	pmDefaulted bool                // sgr(): `if len(params) == 0 { params = [][]int{{0}} }` seen
+	strLocals   map[string]int      // osc(): string locals (name → slot); slot 0 is the string parameter
+	strCount    int
+	shadowOK    bool              // osc(): `:=` in an inner block may shadow an outer local (new slot)
+	scopes      []map[string]bool // names declared in the current block (innermost last)
+	hostVar     string            // osc() 11: `rgb := vt.vx.QueryBackground().Params()`
+	respVar     string            // osc() 11: `resp := fmt.Sprintf(…)`
+	decVar      string            // osc() 52: decoded bytes
 	unknown     int
 }
 
@@ -212,6 +219,33 @@ func (t *btr) cond(e ast.Expr) (string, bool) {
 			}
 			return "", false
 		}
+		if x.Op == token.EQL || x.Op == token.NEQ {
+			wrap := func(c string) (string, bool) {
+				if x.Op == token.NEQ {
+					return "(.not " + c + ")", true
+				}
+				return c, true
+			}
+			if k, ok := t.strVar(x.X); ok {
+				if lit, ok := t.strLit(x.Y); ok {
+					return wrap(fmt.Sprintf("(.strEq %d %s)", k, lit))
+				}
+			}
+			if t.src(x.X) == "vt.vx" && t.src(x.Y) == "nil" {
+				return wrap(".vxNil")
+			}
+			if t.hostVar != "" && t.src(x.X) == "len("+t.hostVar+")" && t.src(x.Y) == "0" {
+				return wrap(".hostEmpty")
+			}
+			if id, ok := x.X.(*ast.Ident); ok && t.bools[id.Name] && t.src(x.Y) == "nil" && t.loopIndex(id.Name) < 0 {
+				// err != nil / err == nil for the bool local that stands for `err != nil`
+				c := fmt.Sprintf("(.cmp .ne (.loc (.var %d)) (.lit 0))", t.locals[id.Name])
+				if x.Op == token.EQL {
+					return "(.not " + c + ")", true
+				}
+				return c, true
+			}
+		}
 		if op, ok := cmpOps[x.Op]; ok {
 			a, ok1 := t.expr(x.X)
 			b, ok2 := t.expr(x.Y)
@@ -229,6 +263,9 @@ func (t *btr) cond(e ast.Expr) (string, bool) {
 		s := t.src(x)
 		if s == "vt.lastCol" {
 			return ".lastCol", true
+		}
+		if s == "vt.OSC8" {
+			return ".osc8", true
 		}
 		if strings.HasPrefix(s, "vt.mode.") && modeFieldNames[s[len("vt.mode."):]] {
 			return "(.mode ." + s[len("vt.mode."):] + ")", true
@@ -279,6 +316,24 @@ func seq(parts []string) string {
 }
 
 func (t *btr) block(list []ast.Stmt) string {
+	if t.shadowOK {
+		// Go block scope: declarations made inside vanish at the end of the block
+		savedL, savedS, savedB := map[string]int{}, map[string]int{}, map[string]bool{}
+		for k, v := range t.locals {
+			savedL[k] = v
+		}
+		for k, v := range t.strLocals {
+			savedS[k] = v
+		}
+		for k, v := range t.bools {
+			savedB[k] = v
+		}
+		t.scopes = append(t.scopes, map[string]bool{})
+		defer func() {
+			t.scopes = t.scopes[:len(t.scopes)-1]
+			t.locals, t.strLocals, t.bools = savedL, savedS, savedB
+		}()
+	}
 	var parts []string
 	before := map[string]bool{}
 	for k := range t.alias {
@@ -328,6 +383,90 @@ func (t *btr) block(list []ast.Stmt) string {
 		}
 	}
 	return seq(parts)
+}
+
+func byteList(str string) string {
+	parts := make([]string, 0, len(str))
+	for _, b := range []byte(str) {
+		parts = append(parts, strconv.Itoa(int(b)))
+	}
+	return "[" + strings.Join(parts, ", ") + "]"
+}
+
+func (t *btr) strLit(e ast.Expr) (string, bool) {
+	b, ok := e.(*ast.BasicLit)
+	if !ok || b.Kind != token.STRING {
+		return "", false
+	}
+	v, err := strconv.Unquote(b.Value)
+	if err != nil {
+		return "", false
+	}
+	return byteList(v), true
+}
+
+func (t *btr) strVar(e ast.Expr) (int, bool) {
+	id, ok := e.(*ast.Ident)
+	if !ok || t.strLocals == nil {
+		return 0, false
+	}
+	k, ok := t.strLocals[id.Name]
+	return k, ok
+}
+
+// declared in the innermost block already?
+func (t *btr) declaredHere(name string) bool {
+	return len(t.scopes) > 0 && t.scopes[len(t.scopes)-1][name]
+}
+
+func (t *btr) markDeclared(name string) {
+	if len(t.scopes) > 0 {
+		t.scopes[len(t.scopes)-1][name] = true
+	}
+}
+
+// a new string local (shadowing an outer one of the same name when allowed)
+func (t *btr) declareStr(name string) (int, bool) {
+	if name == "_" || t.declaredHere(name) {
+		return 0, false
+	}
+	if _, isInt := t.locals[name]; isInt {
+		return 0, false
+	}
+	if _, dup := t.strLocals[name]; dup && !t.shadowOK {
+		return 0, false
+	}
+	k := t.strCount
+	t.strCount++
+	t.strLocals[name] = k
+	t.markDeclared(name)
+	return k, true
+}
+
+// a new bool local (shadowing allowed in osc())
+func (t *btr) declareBool(name string) (int, bool) {
+	if name == "_" || t.declaredHere(name) || t.loopIndex(name) >= 0 {
+		return 0, false
+	}
+	if _, isStr := t.strLocals[name]; isStr {
+		return 0, false
+	}
+	if _, dup := t.locals[name]; dup && !t.shadowOK {
+		return 0, false
+	}
+	k := len(t.order)
+	t.locals[name] = k
+	t.order = append(t.order, name)
+	t.bools[name] = true
+	t.markDeclared(name)
+	return k, true
+}
+
+func optSlot(k int, ok bool) string {
+	if !ok {
+		return "none"
+	}
+	return fmt.Sprintf("(some %d)", k)
 }
 
 func (t *btr) declare(name string) (int, bool) {
@@ -639,7 +778,10 @@ func (t *btr) switchStmt(s *ast.SwitchStmt) string {
 	}
 	tag := ""
 	boolTag := ""
-	if s.Tag != nil {
+	strTag := -1
+	if k, ok := t.strVar(s.Tag); s.Tag != nil && ok {
+		strTag = k
+	} else if s.Tag != nil {
 		x, ok := t.expr(s.Tag)
 		if !ok {
 			// switch <condition> { case true: … case false: … }
@@ -674,7 +816,13 @@ func (t *btr) switchStmt(s *ast.SwitchStmt) string {
 		}
 		var cs []string
 		for _, l := range cc.List {
-			if boolTag != "" {
+			if strTag >= 0 {
+				lit, ok := t.strLit(l)
+				if !ok {
+					return t.unk(s)
+				}
+				cs = append(cs, fmt.Sprintf("(.strEq %d %s)", strTag, lit))
+			} else if boolTag != "" {
 				switch t.src(l) {
 				case "true":
 					cs = append(cs, boolTag)
@@ -711,13 +859,93 @@ func (t *btr) switchStmt(s *ast.SwitchStmt) string {
 	return out
 }
 
+// osc(): a, b, f := cutString(src, ";") and decoded, err := base64.StdEncoding.DecodeString(src)
+func (t *btr) multiAssign(s *ast.AssignStmt) (string, bool) {
+	if len(s.Rhs) != 1 || s.Tok != token.DEFINE || len(t.loops) != 0 || !t.shadowOK {
+		return "", false
+	}
+	call, ok := s.Rhs[0].(*ast.CallExpr)
+	if !ok {
+		return "", false
+	}
+	names := make([]string, len(s.Lhs))
+	for i, l := range s.Lhs {
+		id, ok := l.(*ast.Ident)
+		if !ok {
+			return "", false
+		}
+		names[i] = id.Name
+	}
+	switch {
+	case len(names) == 3 && t.src(call.Fun) == "cutString" && len(call.Args) == 2 && t.src(call.Args[1]) == "\";\"":
+		src, ok := t.strVar(call.Args[0]) // looked up BEFORE the new locals exist
+		if !ok {
+			return "", false
+		}
+		a, okA := 0, false
+		if names[0] != "_" {
+			if a, okA = t.declareStr(names[0]); !okA {
+				return "", false
+			}
+		}
+		b, okB := 0, false
+		if names[1] != "_" {
+			if b, okB = t.declareStr(names[1]); !okB {
+				return "", false
+			}
+		}
+		f, okF := 0, false
+		if names[2] != "_" {
+			if f, okF = t.declareBool(names[2]); !okF {
+				return "", false
+			}
+		}
+		return fmt.Sprintf("(.cut %s %s %s %d)", optSlot(a, okA), optSlot(b, okB), optSlot(f, okF), src), true
+	case len(names) == 2 && t.src(call.Fun) == "base64.StdEncoding.DecodeString" && len(call.Args) == 1 && t.decVar == "" && names[0] != "_" && names[1] != "_":
+		if _, ok := t.strVar(call.Args[0]); !ok {
+			return "", false
+		}
+		k, ok := t.declareBool(names[1])
+		if !ok {
+			return "", false
+		}
+		t.decVar = names[0]
+		return fmt.Sprintf("(.b64Decode %d)", k), true
+	}
+	return "", false
+}
+
 func (t *btr) assign(s *ast.AssignStmt) string {
+	if r, ok := t.multiAssign(s); ok {
+		return r
+	}
 	if len(s.Lhs) != 1 || len(s.Rhs) != 1 {
 		return t.unk(s)
 	}
 	lhs, rhs := s.Lhs[0], s.Rhs[0]
 	if r, ok := t.penStmt(s); ok {
 		return r
+	}
+	if t.shadowOK && len(t.loops) == 0 {
+		l, r := t.src(lhs), t.src(rhs)
+		if k, ok := t.strVar(rhs); ok && s.Tok == token.ASSIGN {
+			switch l {
+			case "vt.cursor.Hyperlink":
+				return fmt.Sprintf("(.setLink %d)", k)
+			case "vt.cursor.HyperlinkParams":
+				return fmt.Sprintf("(.setLinkParams %d)", k)
+			}
+		}
+		if id, ok := lhs.(*ast.Ident); ok && s.Tok == token.DEFINE && id.Name != "_" && !t.declaredHere(id.Name) {
+			if r == "vt.vx.QueryBackground().Params()" && t.hostVar == "" {
+				t.hostVar = id.Name
+				return ".hostQuery"
+			}
+			if t.hostVar != "" && t.respVar == "" && strings.HasPrefix(r, "fmt.Sprintf(\"") {
+				t.respVar = id.Name
+				return ".reply"
+			}
+		}
 	}
 	if t.sgrIdx != "" && s.Tok == token.ADD_ASSIGN && t.src(lhs) == t.sgrIdx {
 		if c, ok := intLit(rhs); ok && c >= 0 {
@@ -1357,6 +1585,16 @@ func (t *btr) stmt(s ast.Stmt) string {
 			return t.unk(s)
 		}
 		fun := t.src(call.Fun)
+		if t.shadowOK && len(t.loops) == 0 {
+			switch {
+			case fun == "vt.postEvent" && len(call.Args) == 1:
+				return ".post"
+			case fun == "vt.pty.WriteString" && len(call.Args) == 1 && t.respVar != "" && t.src(call.Args[0]) == t.respVar:
+				return ".reply"
+			case fun == "vt.vx.ClipboardPush" && len(call.Args) == 1 && t.decVar != "" && t.src(call.Args[0]) == "string("+t.decVar+")":
+				return ".clipPush"
+			}
+		}
 		if fun == "log.Error" && len(call.Args) == 1 {
 			if _, isStr := call.Args[0].(*ast.BasicLit); isStr {
 				return ".logErr"
@@ -1422,7 +1660,7 @@ type bodySpec struct {
 }
 
 func newTr(c *ex.Ctx) *btr {
-	return &btr{c: c, locals: map[string]int{}, alias: map[string]ast.Expr{}, bools: map[string]bool{}}
+	return &btr{c: c, locals: map[string]int{}, alias: map[string]ast.Expr{}, bools: map[string]bool{}, strLocals: map[string]int{}}
 }
 
 func (t *btr) params(fl *ast.FieldList) bool {
@@ -1443,6 +1681,15 @@ func (t *btr) params(fl *ast.FieldList) bool {
 				}
 				t.seqName = n.Name
 				if _, ok := t.declare(n.Name + ".Width"); !ok {
+					return false
+				}
+			case "string":
+				if t.strCount != 0 {
+					return false
+				}
+				t.shadowOK = true
+				t.scopes = append(t.scopes, map[string]bool{})
+				if _, ok := t.declareStr(n.Name); !ok {
 					return false
 				}
 			case "[][]int":
@@ -1494,7 +1741,7 @@ func genBodies(c *ex.Ctx) {
 		{"c0.go", "bs"}, {"c0.go", "ht"}, {"c0.go", "lf"}, {"c0.go", "vt"}, {"c0.go", "ff"}, {"c0.go", "cr"},
 		{"term.go", "scrollUp"}, {"term.go", "scrollDown"}, {"term.go", "print"}, {"term.go", "resize"},
 		{"esc.go", "decsc"}, {"esc.go", "decrc"}, {"esc.go", "ris"}, {"esc.go", "setDefaultTabStops"},
-		{"sgr.go", "sgr"},
+		{"sgr.go", "sgr"}, {"osc.go", "osc"},
 		{"mode.go", "sm"}, {"mode.go", "rm"}, {"mode.go", "decset"}, {"mode.go", "decrst"}, {"mode.go", "decrqm"},
 	}
 	files := map[string]*ast.File{}
@@ -1559,6 +1806,16 @@ func genBodies(c *ex.Ctx) {
 			}
 		}
 	}
+	// cutString (osc.go) is a primitive of the language (`Stmt.cut`, meaning `cutSemi`): its source text is a generated fact
+	cutSrc := "not found"
+	if f := c.Parse("widgets/term/osc.go"); f != nil {
+		for _, d := range f.Decls {
+			if fd, ok := d.(*ast.FuncDecl); ok && fd.Recv == nil && fd.Name.Name == "cutString" {
+				cutSrc = strings.Join(strings.Fields(c.Src(fd)), " ")
+			}
+		}
+	}
+	fmt.Fprintf(&sb, "\n/-- osc.go cutString, whitespace-normalised -/\ndef cutStringSrc : String := %s\n", ex.LeanStr(cutSrc))
 	sb.WriteString("\n/-- all translated bodies, in the order above -/\ndef bodies : List Body := [")
 	for i, n := range names {
 		if i > 0 {
